@@ -1,6 +1,6 @@
 (* OrderProofs.v — lemmas about match_against (C05) and the interface that the
    level-level developments assume of the per-order function. *)
-From PL Require Import Model.Order Spec.MatchSpec.
+From PL Require Import Model.Order Spec.MatchSpec Spec.Hist.
 From Coq Require Import Lia ZifyBool ZifyN.
 
 Local Open Scope N_scope.
@@ -132,18 +132,6 @@ Qed.
 
 (* --- the interface assumed of the per-order function by Level-level proofs --- *)
 
-Definition I_cons (mf : order -> N -> mres) : Prop :=
-  forall o inc,
-    m_consumed (mf o inc) = N.min inc (vis o) /\
-    m_remaining (mf o inc) = inc - m_consumed (mf o inc) /\
-    match m_updated (mf o inc) with
-    | Some u =>
-        vis u + hid u + m_consumed (mf o inc) = vis o + hid o /\
-        hid u + m_hidden_reduced (mf o inc) = hid o /\
-        same_identity o u
-    | None => m_hidden_reduced (mf o inc) = 0
-    end.
-
 Lemma match_against_I_cons : I_cons match_against.
 Proof.
   intros o inc. split; [apply consumed_min|]. split; [apply remaining_eq|].
@@ -159,3 +147,6 @@ Qed.
 
 Lemma same_identity_com a b : same_identity a b -> com a = com b.
 Proof. destruct a, b; cbn; try contradiction; intuition congruence. Qed.
+
+Lemma match_against_I_id : I_id match_against.
+Proof. intros o inc u H. apply (conservation o inc u H). Qed.
